@@ -29,11 +29,11 @@ class Scn:
         self.s.conn_open = False; self.s.conn_no = 0
         self.ev.append(dict(e="TNew"))
 
-    def add(self):
+    def add(self, n=None):
         if self.next_r > NREQ:
             return
         r = self.next_r; self.next_r += 1
-        n = self.rng.choice([1, 2, 3, 5, 9, 17, 120, 300, 4000, 70000] if self.rng.random() < 0.3 else [1, 2, 3, 4, 5, 6, 7])
+        n = n or self.rng.choice([1, 2, 3, 5, 9, 17, 120, 300, 4000, 70000] if self.rng.random() < 0.3 else [1, 2, 3, 4, 5, 6, 7])
         b = self.rng.randbytes(n)
         self.req[r] = b; self.pos[r] = 0
         out = self.s.cmd("TADD %d %s" % (r, b.hex()))
@@ -186,19 +186,45 @@ def validate(chk, events, starts, logs, label):
     return None
 
 
-def random_group(chk, exe, rng, nscen, steps, label):
+def directed(sc, plan):
+    """the model's fault-at-every-offset family on the real client: a request of L bytes is cut after K bytes by a would-block, then the
+    connection ends in one of the ways TcpStream.tla has an action for; the rest must travel whole on a fresh connection"""
+    L, K, fault, second = plan
+    sc.add(L)
+    if second:
+        sc.add(second)
+    sc.s.cmd("SENDCAPS %d 0" % K)            # K bytes accepted, then would-block
+    sc.dispatch()
+    if fault in ("closed", "reset") and sc.s.conn_open and sc.peer_open:
+        sc.s.cmd("PEERCLOSE" if fault == "closed" else "PEERRESET"); sc.peer_open = False
+        sc.ev.append(dict(e="Peer", how=fault))
+    elif fault in ("hup", "err"):
+        sc.s.cmd("POLL " + fault)
+    elif fault == "epipe":
+        sc.s.cmd("SENDCAPS -1")
+    sc.dispatch()
+    sc.s.cmd("POLL ready"); sc.s.cmd("SENDCAPS")
+    for _ in range(3):
+        sc.dispatch()
+        sc.srv()
+
+
+def random_group(chk, exe, rng, nscen, steps, label, plans=None):
     events, starts, logs = [], [], {}
     sess = netsim.Session(exe)
     done = 0
     try:
-        for k in range(nscen):
+        for k in range(len(plans) if plans else nscen):
             sc = Scn(sess, rng, k)
             starts.append(len(events) + 1)
             mark = len(sess.log)
             try:
                 sc.start()
-                for _ in range(steps):
-                    sc.step()
+                if plans:
+                    directed(sc, plans[k])
+                else:
+                    for _ in range(steps):
+                        sc.step()
                 sc.drain()
             except netsim.Died as e:
                 chk.violation("crash:tcp:" + (re.search(r"SUMMARY: \w+: (\S+ \S+)", str(e)) or [None, "died"])[1],
@@ -241,12 +267,16 @@ def run(chk, tier, seed):
         model_check(chk, "max4", dict(MAX=4, Reqs="{1, 2}", MaxPdus=3, MaxReqLen=3, MaxConns=2), 2400)
     nscen, steps = (60, 60) if tier == "quick" else (600, 90)
     total = 0
+    Ls = [6] if tier == "quick" else [2, 3, 6, 9, 300]
+    plans = [(L, K, f, sec) for L in Ls for K in sorted({1, 2, L // 2, L - 1} - {0, L}) for f in ("closed", "reset", "hup", "err", "epipe") for sec in (0, 3)]
+    total += random_group(chk, exe, rng, 0, 0, "directed", plans=plans)
     for g in range(2 if tier == "quick" else 6):
         total += random_group(chk, exe, rng, nscen // 2 if tier == "quick" else nscen // 6, steps, "g%d" % g)
     chk.add(evaluations=total, distinct_nontrivial=total,
             rule="seeded random scenarios on the bare TCP async client with the real buffer constants: PDUs of 2..65539 bytes, recv chunk scripts "
                  "(1-byte chunks, would-block, buffer-full), partial sends / would-block / EPIPE, peer close and reset at arbitrary offsets, poll outcomes; "
-                 "each scenario is one trace (every system call logged) validated by TLC")
+                 "each scenario is one trace (every system call logged) validated by TLC; plus the directed family: a request cut by a would-block after K bytes "
+                 "x connection ended by peer close / reset / poll hup / poll err / EPIPE x with or without a second queued request")
     chk.assumptions += ["the blocking TCP client (net_tcp.c) and fast_tlv socket reader are exercised by C07/C09, not here",
                         "timeouts and the per-round request limit are C13's business (disabled here)"]
 
